@@ -23,7 +23,7 @@ RULE = ("generated graphs and datasets (blank-node-named graphs, empty graphs, d
         "before and after every call, every call made twice. Non-trivial: the container has >=2 graphs or a blank node. Distinct = distinct (container, data).")
 ASSUMPTIONS = ["snapshots read the store directly (store.triples/contexts), never the API under test", "registration of the always-present default graph is not a change",
                "prefix bindings made by serializers are not part of the statement ('triples and quads ... and the set of graphs')",
-               "queries using RAND/NOW/UUID/BNODE() are not generated"]
+               "queries using RAND/NOW/UUID/BNODE() are not generated", "FROM / FROM NAMED are exercised with a file:// document in the check's scratch directory (no network)"]
 
 GRAPH_FORMATS = ["nt", "turtle", "longturtle", "n3", "xml", "pretty-xml", "json-ld", "hext", "trig", "nquads", "trix", "patch"]
 QUERIES = [
@@ -125,6 +125,23 @@ def same(a, b):
     return a == b
 
 
+_SCRATCH = [None]
+
+
+def scratch_doc():
+    """a small Turtle document on local disk (file:// IRI), so that FROM / FROM NAMED can load something without a network"""
+    import os, tempfile
+    if _SCRATCH[0] is None:
+        here = os.path.dirname(os.path.dirname(os.path.dirname(os.path.abspath(__file__))))
+        d = os.path.join(here, ".scratch"); os.makedirs(d, exist_ok=True)
+        fd, path = tempfile.mkstemp(prefix="c13-", suffix=".ttl", dir=d)
+        os.write(fd, b"<urn:file:s> <urn:file:p> <urn:file:o> , \"from the file\" .\n"); os.close(fd)
+        import atexit
+        atexit.register(lambda: os.path.exists(path) and os.remove(path))
+        _SCRATCH[0] = "file://" + path
+    return _SCRATCH[0]
+
+
 def read_calls(c, case, members):
     """list of (name, thunk). Every thunk is a read-only use of the public API."""
     kind = case["kind"]
@@ -167,6 +184,13 @@ def read_calls(c, case, members):
             ("contains-quad-foreign", lambda: (t0 + (foreign,)) in c), ("triples-context-unknown", lambda: list(c.triples((None, None, None), context=Graph(c.store, unknown)))),
             ("quads-restricted", lambda: list(c.quads((None, None, None, names[0])))), ("get_context", lambda: len(c.get_context(unknown))),
             ("triples-quad-foreign", lambda: list(c.triples((None, None, None, foreign)))),
+            ("triples_choices-foreign", lambda: list(c.triples_choices((None, [t0[1], URIRef("urn:other:p")], None), context=foreign))),
+            ("triples_choices-view", lambda: list(c.triples_choices((t0[0], None, [t0[2]]), context=view))),
+            ("triples_choices", lambda: list(c.triples_choices(([t0[0]], None, None)))),
+            ("quads-foreign", lambda: list(c.quads((None, None, None, foreign)))),
+            ("query-from-file", lambda: c.query("SELECT * FROM <%s> WHERE { ?s ?p ?o }" % scratch_doc())),
+            ("query-from-named-file", lambda: c.query("SELECT * FROM NAMED <%s> WHERE { GRAPH ?g { ?s ?p ?o } }" % scratch_doc())),
+            ("query-from-own-graph", lambda: c.query("SELECT * FROM <%s> WHERE { ?s ?p ?o }" % names[0]) if isinstance(names[0], URIRef) else None),
         ]
         if kind != "cg":
             calls += [("graphs", lambda: sorted(str(g.identifier) for g in c.graphs())), ("get_graph-known", lambda: c.get_graph(names[0]) is not None)]
